@@ -21,6 +21,11 @@ class AnalysisError(Exception):
     exit code 2, never to a VIOLATION."""
 
 
+class AnchorError(AnalysisError):
+    """A function / module / data file a property is anchored in no longer
+    exists: nothing can be decided (exit code 2)."""
+
+
 # --------------------------------------------------------------------------
 # Program model
 # --------------------------------------------------------------------------
@@ -111,7 +116,7 @@ class Program(object):
     # -- anchors -----------------------------------------------------------
     def module(self, name):
         if name not in self.modules:
-            raise AnalysisError("anchor vanished: module %s" % name)
+            raise AnchorError("anchor vanished: module %s" % name)
         self.consulted.add(name)
         return self.modules[name]
 
@@ -125,7 +130,7 @@ class Program(object):
         mod, _, qual = spec.partition(":")
         m = self.module(mod)
         if qual not in m.defs:
-            raise AnalysisError("anchor vanished: %s" % spec)
+            raise AnchorError("anchor vanished: %s" % spec)
         return m.defs[qual]
 
     def functions(self, modname):
@@ -143,7 +148,7 @@ class Program(object):
     def read_data(self, rel):
         path = os.path.join(self.repo, rel)
         if not os.path.exists(path):
-            raise AnalysisError("anchor vanished: data file %s" % rel)
+            raise AnchorError("anchor vanished: data file %s" % rel)
         with open(path, "rb") as f:
             return f.read()
 
@@ -238,6 +243,7 @@ class Report(object):
         self.counts = {}
         self.floors = {}
         self.selftests = []     # (name, as expected?, kind)
+        self.undecided_rules = []   # ([rule ids], reason)
         self.t0 = _T0
         self.current_rule = None
 
@@ -271,6 +277,39 @@ class Report(object):
         """Require at least n instances of this rule to have been evaluated."""
         self.floors[rule] = n
 
+    def undecided(self, rules, reason):
+        """A rule met code whose shape it cannot analyse (the anchors exist).
+        It gives no verdict: neither 'holds' nor 'violated'.  Reported on its
+        own line and in the evidence; the exit code is not affected and the
+        rule's floor is waived."""
+        if isinstance(rules, str):
+            rules = [rules]
+        self.undecided_rules.append((list(rules), reason))
+
+    def guard(self, rules, fn, *args, **kw):
+        """Run one rule function; an AnalysisError that is not a vanished
+        anchor (or an exception inside the rule on a shape it does not
+        understand) makes the rule undecided instead of aborting the whole
+        check."""
+        if os.environ.get("RIGVERIF_STRICT"):
+            return fn(*args, **kw)
+        try:
+            return fn(*args, **kw)
+        except AnchorError:
+            raise
+        except AnalysisError as e:
+            self.undecided(rules, str(e))
+        except RecursionError:
+            self.undecided(rules, "analysis too deep")
+        except Exception as e:      # noqa: a shape the rule did not foresee
+            import traceback
+            tb = traceback.extract_tb(e.__traceback__)[-1]
+            self.undecided(rules, "rule could not process this code (%s: %s "
+                           "at %s:%d)" % (type(e).__name__, e,
+                                          os.path.basename(tb.filename),
+                                          tb.lineno))
+        return None
+
     def note(self, text):
         self.notes.append(text)
 
@@ -292,8 +331,13 @@ def finish(report, program, explanation, not_decided, trusted=None,
     """Check floors, split findings into known / new, write evidence, print the
     verdict lines and return the exit code."""
     floor_msgs = []
+    waived = set()
+    for rules, _ in report.undecided_rules:
+        waived.update(rules)
     for rule, n in sorted(report.floors.items()):
         got = report.counts.get(rule, 0)
+        if rule in waived:
+            continue
         if got < n:
             floor_msgs.append(
                 "rule %s evaluated %d instance(s), floor is %d - the rule no "
@@ -371,6 +415,8 @@ def finish(report, program, explanation, not_decided, trusted=None,
             "CPython ast parser", "the rigverif engines (this checker)"],
         exhaustive=bool(exhaustive),
         notes=report.notes,
+        undecided=[dict(rules=r, reason=why)
+                   for r, why in report.undecided_rules],
         known_findings_reported=len(old),
         selftests=[dict(variant=n, kind=k, as_expected=bool(fd))
                    for n, fd, k in report.selftests],
@@ -403,6 +449,10 @@ def finish(report, program, explanation, not_decided, trusted=None,
         word = ("fired" if fd else "SILENT") if k == "breaking" else \
             ("quiet" if fd else "FALSE-ALARM")
         print("   selftest %-40s %s" % (n, word))
+    for rules, why in report.undecided_rules:
+        print("UNDECIDED property=%s rules=%s the code is outside what "
+              "these rules can analyse, no verdict from them: %s" % (
+                  report.prop, ",".join(rules), why))
     for l in lines:
         print(l)
     sys.stdout.flush()
